@@ -103,42 +103,53 @@ func blockToSeqPair(alignedBlock alignedBlockInfo, ref []byte) alignPair {
 	if len(insertions) > 0 {
 		sort.Sort(byStart(insertions))
 
-		// if we are going to insert multiple insertions into one pair then we will need to keep track
-		// of the coordinate offset after the first one
-		offsets := make([]int, len(alignedBlock.seqpairArray))
-
 		// for every insertion
 		for _, insertion := range insertions {
-			// this is the pair it is already present in, which we will skip:
-			rowNumber := insertion.rowNumber
-			for j, seqPair := range alignedBlock.seqpairArray {
+			// gaps to insert into every pair except the one the insertion is already present in
+			gaps := make([]byte, insertion.length)
+			for k := range gaps {
+				gaps[k] = '-'
+			}
+
+			for j := range refSeqArray {
 				// don't reinsert - the insertion already exists in this one
-				if j == rowNumber {
+				if j == insertion.rowNumber {
 					continue
 				}
 
-				// if the insertions starts after the (offset) length of this sequence,
-				// we don't have to do anything to this pair here
-				if insertion.start > len(alignedBlock.seqpairArray[j].ref)-offsets[j] {
+				// find the column of this pair at which the reference base that follows the insertion
+				// sits, skipping the gap columns of insertions that this pair already carries
+				col := -1
+				refBases := 0
+				for k, nuc := range refSeqArray[j] {
+					if nuc == '-' {
+						continue
+					}
+					if refBases == insertion.start {
+						col = k
+						break
+					}
+					refBases++
+				}
+
+				// if the insertion starts after the end of this pair, we don't have to do anything here
+				if col == -1 {
 					continue
 				}
 
-				// otherwise, we make a slice of gaps to insert into the slices
-				gaps := make([]byte, insertion.length)
-				for k := range gaps {
-					gaps[k] = '-'
-				}
+				// otherwise, we build new slices with the gaps in (the old ones may share their storage with
+				// the input, so they must not be appended to in place)
+				newRef := make([]byte, 0, len(refSeqArray[j])+len(gaps))
+				newRef = append(newRef, refSeqArray[j][:col]...)
+				newRef = append(newRef, gaps...)
+				newRef = append(newRef, refSeqArray[j][col:]...)
+				refSeqArray[j] = newRef
 
-				refSeqArray[j] = refSeqArray[j][:insertion.start+offsets[j]]
-				refSeqArray[j] = append(refSeqArray[j], gaps...)
-				refSeqArray[j] = append(refSeqArray[j], seqPair.ref[insertion.start+offsets[j]:]...)
-
-				queSeqArray[j] = seqPair.query[:insertion.start+offsets[j]]
-				queSeqArray[j] = append(queSeqArray[j], gaps...)
-				queSeqArray[j] = append(queSeqArray[j], seqPair.query[insertion.start+offsets[j]:]...)
-
-				// and we add the relevant offset to account for this insertion in future coordinates
-				offsets[j] += insertion.length
+				newQue := make([]byte, 0, len(queSeqArray[j])+len(gaps))
+				newQue = append(newQue, queSeqArray[j][:col]...)
+				newQue = append(newQue, gaps...)
+				newQue = append(newQue, queSeqArray[j][col:]...)
+				queSeqArray[j] = newQue
 			}
 		}
 	}
